@@ -27,6 +27,7 @@ LEVEL_TEXT = (
     "and with extra consumers attached must give bit-identical results. Sampled, not exhaustive."
     ' A slice dense in weighted commands, and a deep part: chains of 60-1500 value-preserving built-in commands linked directly, through lists or mixed, in forward, reversed and shuffled file order.'
 )
+LEVEL_TEXT += ' Added later: enumerated integer columns of codes 2^53..2^60 with step thresholds one off a code; one model in five is first run on a table with a non-numeric cell (refused), repaired and run again on the same Program; one in five is built twice through add_command from the very same Argument objects on two tables, the first run before the second.'
 LEVEL_NOTE = (
     "Nodes whose reference is undefined (statistics of fewer than two distinct values, decisions within rounding) and their "
     "descendants are not compared and any outcome is accepted there; they are counted in evidence."
